@@ -3,18 +3,32 @@ batching never hides which case failed and never masks a case behind another."""
 from . import driver
 
 
-def run_valid_batch(items, r, pid, prefix="", suffix="", charset="bk", base=None, tree=None, describe=None):
-    """items: list of (key, statement text, expected bytes).  All statements are
-    expected to assemble without error to exactly their expected bytes."""
+def run_valid_batch(items, r, pid, prefix="", suffix="", charset="bk", base=None, tree=None, describe=None,
+                    prefix_bytes=b"", suffix_bytes=b"", start=None):
+    """items: list of (key, statement text, expected bytes or callable(address) -> bytes).  All statements are
+    expected to assemble without error to exactly their expected bytes.  prefix/suffix are fixed program text
+    around the statements producing prefix_bytes/suffix_bytes; start = address of the first byte of the image."""
     r.extra["assembler_runs"] += 0
-    _bisect(items, r, pid, prefix, suffix, charset, base, tree, describe)
+    ctx = (prefix_bytes, suffix_bytes, start if start is not None else (base if base is not None else 0o1000))
+    _bisect(items, r, pid, prefix, suffix, charset, base, tree, describe, ctx)
 
 
-def _bisect(items, r, pid, prefix, suffix, charset, base, tree, describe):
+def expected_of(items, ctx):
+    pre, suf, start = ctx
+    addr = start + len(pre)
+    parts = []
+    for it in items:
+        e = it[2](addr) if callable(it[2]) else it[2]
+        parts.append(e)
+        addr += len(e)
+    return pre + b"".join(parts) + suf, parts
+
+
+def _bisect(items, r, pid, prefix, suffix, charset, base, tree, describe, ctx=(b"", b"", 0o1000)):
     text = prefix + "".join(it[1] + "\n" for it in items) + suffix
     out = driver.assemble([("b.mac", text)], charset=charset, tree=tree)
     r.extra["assembler_runs"] += 1
-    want = b"".join(it[2] for it in items)
+    want, parts = expected_of(items, ctx)
     good = out.status == "ok" and out.code == want and (base is None or out.base == base)
     if good:
         for it in items:
@@ -23,16 +37,17 @@ def _bisect(items, r, pid, prefix, suffix, charset, base, tree, describe):
     if len(items) == 1:
         it = items[0]
         r.ran(out.cls(), key=it[0])
-        sig, what = classify_mismatch(out, it[2])
+        sig, what = classify_mismatch(out, want)
         d = describe(it) if describe else {}
-        r.violation(sig + (":" + d["family"] if d.get("family") else ""), what,
-                    {"kind": "single", "key": it[0], "text": prefix + it[1] + "\n" + suffix, "charset": charset,
-                     "expected_hex": it[2].hex()},
-                    expected={"status": "ok", "bytes": it[2].hex()}, observed=out.brief())
+        c = {"kind": "single", "key": it[0], "text": text, "charset": charset, "expected_hex": want.hex()}
+        if tree:
+            c["tree"] = {k: (v if isinstance(v, str) else {"hex": v.hex()}) for k, v in tree.items()}
+        r.violation(sig + (":" + d["family"] if d.get("family") else ""), what, c,
+                    expected={"status": "ok", "bytes": want.hex() if len(want) < 200 else want[:200].hex() + "..."}, observed=out.brief())
         return
     mid = len(items) // 2
-    _bisect(items[:mid], r, pid, prefix, suffix, charset, base, tree, describe)
-    _bisect(items[mid:], r, pid, prefix, suffix, charset, base, tree, describe)
+    _bisect(items[:mid], r, pid, prefix, suffix, charset, base, tree, describe, ctx)
+    _bisect(items[mid:], r, pid, prefix, suffix, charset, base, tree, describe, ctx)
 
 
 def classify_mismatch(out, want):
@@ -65,12 +80,18 @@ def expect_error(text, r, key, case, charset="bk", tree=None, files=None):
 def replay_single(case, r):
     """Re-check one statement that bisection singled out (used by --replay and shrinking)."""
     want = bytes.fromhex(case["expected_hex"])
-    out = driver.assemble([("b.mac", case["text"])], charset=case.get("charset", "bk"), tree=case.get("tree"))
+    out = driver.assemble([("b.mac", case["text"])], charset=case.get("charset", "bk"), tree=_untree(case.get("tree")))
     r.ran(out.cls(), key=case.get("key"))
     if not (out.status == "ok" and out.code == want):
         sig, what = classify_mismatch(out, want)
         r.violation(sig, what, case, expected={"status": "ok", "bytes": want.hex()}, observed=out.brief())
 
 
+def _untree(tree):
+    if not tree:
+        return None
+    return {k: (bytes.fromhex(v["hex"]) if isinstance(v, dict) else v) for k, v in tree.items()}
+
+
 def replay_error(case, r):
-    expect_error(case["text"], r, case.get("key"), case, charset=case.get("charset", "bk"), tree=case.get("tree"))
+    expect_error(case["text"], r, case.get("key"), case, charset=case.get("charset", "bk"), tree=_untree(case.get("tree")))
